@@ -101,3 +101,13 @@ Example clean_needed :
   let m1 := commit_merge 0 5 m m ch in
   live (commit_merge 0 6 m1 (overlay [] m1) (rollback_of m ch)) = [(B "/a/b", B "1")] /\ live m = [].
 Proof. vm_compute. repeat split; reflexivity. Qed.
+
+(* the statement "the rollback's candidate shows exactly the old view" is false under the hypotheses of the rollback
+   theorem alone *)
+Lemma candidate_statement_refuted :
+  exists ord1 i j m vw ch,
+    rollback_wf i j m vw ch = true /\
+    live (candidate_rb (overlay [] (commit_merge ord1 i m vw ch)) (rollback_of vw ch)) <> live vw.
+Proof.
+  exists 0, 5, 6, cx_m, cx_m, cx_ch. split; [vm_compute; reflexivity|]. vm_compute. discriminate.
+Qed.
